@@ -539,7 +539,7 @@ def _run_cfg(ctx, cfg):
         lo = nfine - per * (n - 1)
         singles = sorted(set(range(lo, lo + per + 1)) | set(range(0, nfine + 1, 6)) | {0, nfine - 1, nfine})
     scen = [[k] for k in singles]
-    for _ in range(ctx.n(3, 60)):
+    for _ in range(ctx.n(3, 30)):
         scen.append([rng.randrange(1, nfine), rng.randrange(0, 40)])
     sims = ctx.model(DRIVER, [dict(op="sim", proto=proto, r0=r0, kills=ks, **base) for ks in scen])
     scenarios = []
@@ -680,7 +680,7 @@ def _report_failures(ctx, cfg, allsc, ref, confirmed):
 
 def _run_opaque(ctx):
     """configurations the model does not cover (plots, exported operator outputs as HDF5, transitions): oracle only,
-    simulated kills at every real op boundary"""
+    simulated kills at every second real op boundary"""
     seed = ctx.rng.randrange(1000)
     for cfg in (dict(n=2, seed=seed, n_samples=1, strategy="all", r0=False, plots=True, export=True),):
         try:
@@ -688,7 +688,7 @@ def _run_opaque(ctx):
             ref = o0["ref"]
             if ref["status"] != "done":
                 continue
-            kills = [[dict(at=k, when="before")] for k in range(0, len(ref["ops"]) + 1)]
+            kills = [[dict(at=k, when="before")] for k in range(0, len(ref["ops"]) + 1, 2)]
             outs = _session_chunks(ctx, cfg, [dict(sid=i, kills=k) for i, k in enumerate(kills)], 6)
         except Infra as e:
             ctx.notes.append(f"opaque-output configuration skipped: {e}")
